@@ -1521,7 +1521,10 @@ def _struct_diffs(a, b, path="/svg"):
     if a[1] != b[1]:
         da, db = dict(a[1]), dict(b[1])
         ch = {k: (da.get(k), db.get(k)) for k in sorted(set(da) | set(db)) if da.get(k) != db.get(k)}
-        out.append(f"{path}: attributes changed: {ch}")
+        if ch:
+            out.append(f"{path}: attributes changed: {ch}")
+        else:
+            out.append(f"{path}: attribute order changed: {[k for k, _ in a[1]]} became {[k for k, _ in b[1]]}")
     def keys(children):
         seen, out_ = {}, []
         for c in children:
@@ -1588,12 +1591,14 @@ def collect_gate_patterns(repo: Repo, allow_text: bool):
 
 
 # =========================================================================================== ignorable content
-def _full_struct(n):
+def _full_struct(n, attr_order=False):
     if not isinstance(n.tag, str):
         return ("#", repr(n.tag))
-    at = tuple(sorted((k, repr(v)) for k, v in n.attrib.items()))
-    kids = tuple(_full_struct(c) for c in n.children)
-    if n.local() == "defs":
+    at = tuple((k, repr(v)) for k, v in n.attrib.items())
+    if not attr_order:
+        at = tuple(sorted(at))
+    kids = tuple(_full_struct(c, attr_order) for c in n.children)
+    if n.local() == "defs" and not attr_order:
         kids = tuple(sorted(kids, key=repr))  # the order of gradients inside defs may differ (the property says so)
     return (n.local(), at, kids)
 
@@ -1994,3 +1999,113 @@ def check_prune(repo: Repo, rep: Report, rules: Dict[str, str]):
             rep.fail(rid, Fk, what[k], f"{len(u)} deviations; first: {u[0]}", mod, mod.functions.get(Fk.split(".", 1)[1]))
         else:
             rep.ok(rid, Fk + f" [{what[k]}]", "schematic document (painted, zero-area, own / inherited stroke, display:none group, transparent, unfilled, moves only) and a 5-contour path, with and without stroke: exactly the unpaintable parts go", True)
+
+
+# =========================================================================================== determinism (relational)
+def check_set_order_independence(repo: Repo, rep: Report, rule: str):
+    """topicosvg interpreted twice on the schematic document, with sets (and the module-level tables derived from sets)
+    iterated in two opposite orders: the converted documents are identical."""
+    from sa.sym import Interp
+    svg = repo["svg"]
+    F = "svg.SVG.topicosvg"
+    structs = []
+    for rev in (False, True):
+        Interp._modcache = {}
+
+        def extra(it, rev=rev):
+            it.set_order_reversed = rev
+
+        def body(it, a, k):
+            from sa.sym import method_of
+            it.call(method_of(repo, "svg", "SVG", "topicosvg"), [a[0]], dict(k))
+            return a[0]
+        outs = ok_outcomes(run(repo, body, lambda: ([make_svg(_order_doc())], {"inplace": True, "allow_text": True}), setup_extra=extra, max_paths=64, area=_pipeline_area), F)
+        structs.append([("raises " + o.raised) if o.raised else _full_struct(o.args[0].f["svg_root"], attr_order=True) for o in outs])
+    Interp._modcache = {}
+    a, b = structs
+    if len(a) != len(b):
+        rep.fail(rule, F, "conversion under two set iteration orders", f"{len(a)} paths under one order, {len(b)} under the other", svg, svg.func("SVG.topicosvg"))
+        return
+    for x, y in zip(a, b):
+        if x != y:
+            d = _struct_diffs(x, y)[:2] if isinstance(x, tuple) and isinstance(y, tuple) else [f"{str(x)[:80]} vs {str(y)[:80]}"]
+            rep.fail(rule, F, "conversion under two set iteration orders", "the converted document depends on the iteration order of a set (hash order varies between runs): " + "; ".join(d), svg, svg.func("SVG.topicosvg"))
+            return
+    # attribute editing operations of the public API
+    res = []
+    for rev in (False, True):
+        Interp._modcache = {}
+
+        def extra2(it, rev=rev):
+            it.set_order_reversed = rev
+
+        def body2(it, a, k):
+            from sa.sym import method_of
+            it.call(method_of(repo, "svg", "SVG", "set_attributes"), [a[0], (("data-b", "2"), ("data-a", "1"), ("data-c", "3"))], {"inplace": True})
+            it.call(method_of(repo, "svg", "SVG", "remove_attributes"), [a[0], ("fill", "viewBox")], {"inplace": True})
+            return a[0]
+        outs = ok_outcomes(run(repo, body2, lambda: ([make_svg(El("svg", {"viewBox": "0 0 1 1", "fill": "red", "id": "r"}, [El("path", {"d": pd(("M", (0, 0)))})]))], {}), setup_extra=extra2), "svg.SVG.set_attributes")
+        res.append([("raises " + o.raised) if o.raised else _full_struct(o.args[0].f["svg_root"], attr_order=True) for o in outs])
+    Interp._modcache = {}
+    if res[0] != res[1]:
+        rep.fail(rule, "svg.SVG.set_attributes", "set_attributes / remove_attributes under two set iteration orders", "the order in which attributes are written depends on the iteration order of a set: " +
+                 "; ".join(_struct_diffs(res[0][0], res[1][0])[:2] if isinstance(res[0][0], tuple) and isinstance(res[1][0], tuple) else ["different outcomes"]), svg, svg.functions.get("SVG.set_attributes"))
+        return
+    rep.ok(rule, F + " [set order]", "schematic document converted (and attributes set / removed) with sets iterated in two opposite orders: identical results", True)
+
+
+def _order_doc():
+    """The pipeline document plus gradients with id'd, attribute-rich stops under transformed shapes."""
+    r = _pipeline_doc()
+    defs = next(c for c in r.children if isinstance(c.tag, str) and c.local() == "defs")
+    g = El("radialGradient", {"id": "gs", "cx": "0.4", "fy": "0.3", "spreadMethod": "reflect", "gradientUnits": "userSpaceOnUse"},
+           [El("stop", {"id": "sa", "offset": "0", "stop-color": "red", "stop-opacity": "0.5"}), El("stop", {"id": "sb", "stop-opacity": "0.25", "stop-color": "blue", "offset": "1"})])
+    defs._append(g)
+    r._append(El("text", {"id": "txt", "x": "1", "y": "2"}, [El("tspan", {"id": "ts"})]))
+    r._append(El("path", {"id": "og", "fill": "url(#gs)", "transform": "tO", "stroke-linejoin": "round", "stroke-linecap": "square", "stroke": "black", "stroke-dasharray": "1 2",
+                          "d": pd(("M", (30, 50)), ("L", (33, 50)), ("L", (33, 53)), ("Z", ()))}))
+    return r
+
+
+def check_history_independence(repo: Repo, rep: Report, rule: str):
+    """Two documents converted one after the other by the same interpreter (one process: module-level state and
+    functools caches persist): the second result equals the result of converting that document alone."""
+    from sa.sym import Interp, method_of
+    svg = repo["svg"]
+    F = "svg.SVG.topicosvg"
+
+    def other_doc():
+        # same shapes and ids as the main document, different view box (tolerance) and paints
+        r = _order_doc()
+        r.attrib["viewBox"] = "0 0 1000 1000"
+        r.attrib["fill"] = "blue"
+        return r
+
+    def convert(it, root):
+        s = it.construct(ClassRef("svg", "SVG"), [root], {})
+        it.call(method_of(repo, "svg", "SVG", "topicosvg"), [s], {"inplace": True, "allow_text": True})
+        return s.f["svg_root"]
+
+    results = {}
+    for name, docs in (("alone", [_order_doc]), ("after another document", [other_doc, _order_doc])):
+        Interp._modcache = {}
+
+        def body(it, a, k, docs=docs):
+            out = None
+            for d in docs:
+                out = convert(it, d())
+            return out
+        outs = ok_outcomes(run(repo, body, lambda: ([], {}), max_paths=256, area=_pipeline_area), F)
+        results[name] = sorted({("raises " + o.raised) if o.raised else repr(_full_struct(o.value, attr_order=True)) for o in outs})
+    Interp._modcache = {}
+    if results["alone"] != results["after another document"]:
+        a, b = results["alone"], results["after another document"]
+        diff = "different results"
+        try:
+            import ast as _ast
+            diff = "; ".join(_struct_diffs(_ast.literal_eval(a[0]), _ast.literal_eval(b[0]))[:2])
+        except Exception:
+            pass
+        rep.fail(rule, F, "conversion after another conversion in the same process", "the result of converting a document depends on the documents converted before it in the same process: " + diff, svg, svg.func("SVG.topicosvg"))
+    else:
+        rep.ok(rule, F + " [history]", "schematic document converted alone and after another document (same ids, other view box and paints) in one interpreter with persistent caches: identical results", True)
